@@ -693,6 +693,11 @@ def run_property(chk, prop, laws, quick_gen=300, thorough_gen=4000, scns=None, n
             # the same over a Redis-backed store shared by two engine instances (each its own client): the record and the
             # history read through either instance are the same
             scheds += ["redis-canonical", "redis-random"]
+            if scn.name in ("seq-task-wait", "seq-retry-then-ok", "seq-catch", "par2-ok", "map3-mc1-ok", "seq-invoke-longform"):
+                # ... and with every engine instance dying and coming back while the first state holds the start event: the
+                # record survives in Redis, the redelivered start event must not start the execution again (one RUNNING
+                # notification, the same startDate, the history kept)
+                scheds += ["redis-crash"]
         if "TimeoutSeconds" in scn.machine:
             # the broker stalls: nothing is delivered for over a minute of virtual time, at a random moment or right
             # after the terminal notification, while timers and heartbeats (the once-a-minute back stop) keep firing
@@ -717,7 +722,15 @@ def run_property(chk, prop, laws, quick_gen=300, thorough_gen=4000, scns=None, n
             if forced:
                 stall_at, kind = int(kind[len("stall@"):]), "stall"
             stall_until = None
+            crashed = kind != "crash"
             while s.steps < 2500:
+                if not crashed and s.steps >= 3:
+                    crashed = True
+                    for i in range(len(s.instances)):
+                        s.do(("crash", i))
+                        s.do(("restart", i))
+                        mon(s, ea, ("restart", i))
+                    continue
                 if explore.terminal_seen(s, ea) and g is None:
                     g = s.steps + 40
                     if stall_at == "terminal":
@@ -733,7 +746,7 @@ def run_property(chk, prop, laws, quick_gen=300, thorough_gen=4000, scns=None, n
                     stall_until = simmod.CLOCK.ms      # nothing is armed: the stall is over
                 if g is not None and s.steps >= g and (stall_until is None or simmod.CLOCK.ms >= stall_until):
                     break
-                if kind == "canonical" or forced:
+                if kind in ("canonical", "crash") or forced:
                     st = s.canonical_step()
                     if st is None:
                         break
